@@ -225,6 +225,43 @@ fn on_released(token: u64) {
     });
 }
 
+thread_local! {
+    static LOCK_YIELDER: RefCell<Option<Box<dyn FnMut(u8) -> bool>>> = RefCell::new(None);
+}
+
+/// the harness may suspend a task right before it asks for a lock (this is how true parallelism
+/// between the processors is modelled: other tasks run "between" any two lock requests)
+pub fn set_lock_yielder(f: Option<Box<dyn FnMut(u8) -> bool>>) {
+    LOCK_YIELDER.with(|y| *y.borrow_mut() = f);
+}
+
+struct YieldOnce(bool);
+impl std::future::Future for YieldOnce {
+    type Output = ();
+    fn poll(
+        mut self: std::pin::Pin<&mut Self>,
+        cx: &mut std::task::Context<'_>,
+    ) -> std::task::Poll<()> {
+        if self.0 {
+            std::task::Poll::Ready(())
+        } else {
+            self.0 = true;
+            cx.waker().wake_by_ref();
+            std::task::Poll::Pending
+        }
+    }
+}
+
+async fn maybe_yield(rank: u8) {
+    let y = LOCK_YIELDER.with(|y| match y.borrow_mut().as_mut() {
+        Some(f) => f(rank),
+        None => false,
+    });
+    if y {
+        YieldOnce(false).await;
+    }
+}
+
 #[derive(Debug)]
 pub struct RwLock<T: ?Sized> {
     inner: tokio::sync::RwLock<T>,
@@ -252,6 +289,7 @@ impl<T: ?Sized> RwLock<T> {
     pub fn read(&self) -> impl std::future::Future<Output = ReadGuard<'_, T>> {
         let loc = Location::caller();
         async move {
+            maybe_yield(rank_of::<T>()).await;
             on_requested(rank_of::<T>(), false, loc);
             let guard = self.inner.read().await;
             let token = on_acquired(rank_of::<T>(), false, loc);
@@ -262,6 +300,7 @@ impl<T: ?Sized> RwLock<T> {
     pub fn write(&self) -> impl std::future::Future<Output = WriteGuard<'_, T>> {
         let loc = Location::caller();
         async move {
+            maybe_yield(rank_of::<T>()).await;
             on_requested(rank_of::<T>(), true, loc);
             let guard = self.inner.write().await;
             let token = on_acquired(rank_of::<T>(), true, loc);
